@@ -323,8 +323,15 @@ pub fn eval_classes(q: &Query, table: &[Vec<V>]) -> Result<Vec<Vec<PRow>>, Fail>
     }
 }
 
+thread_local! {
+    /// when false a float SUM matches any float (the Coq checker's wildcard); when true it is compared
+    /// numerically with a relative tolerance (the harness-side part of the tie, see DESIGN section 3)
+    pub static STRICT_FLOAT_SUM: std::cell::Cell<bool> = const { std::cell::Cell::new(true) };
+}
+
 pub fn cell_match(exp: &E, act: &V) -> bool {
     match (exp, act) {
+        (E::FloatSum(_), V::Float(_)) if !STRICT_FLOAT_SUM.with(|c| c.get()) => true,
         (E::FloatSum(s), V::Float(b)) => {
             let a = f64::from_bits(*b);
             if s.is_nan() || a.is_nan() {
@@ -425,6 +432,14 @@ pub fn may_fail(q: &Query, table: &[Vec<V>]) -> bool {
         }
     }
     false
+}
+
+/// the verdict the Coq checker must reproduce: float sums are wildcards
+pub fn valid_wildcard(q: &Query, table: &[Vec<V>], out: &crate::db::QOut) -> bool {
+    STRICT_FLOAT_SUM.with(|c| c.set(false));
+    let r = valid(q, table, out).is_ok();
+    STRICT_FLOAT_SUM.with(|c| c.set(true));
+    r
 }
 
 /// Ok(()) when `out` is a correct answer; Err(reason) otherwise (reason starts with a short tag)
